@@ -85,6 +85,7 @@ class ConcreteEx:
         self.uf_tables = uf_tables or {}
         self.fresh = {}
         self._patches = []
+        self._attr_patches = []
         self.path_state = {}
 
     # inputs
@@ -126,6 +127,9 @@ class ConcreteEx:
     def abstract_wide_arith(self, bits, div_bits="same"):
         pass
 
+    def inputs_value(self, name, default=0):
+        return self.inputs.get(name, default)
+
     def prefer_int(self, on=True):
         pass
 
@@ -136,8 +140,10 @@ class ConcreteEx:
     def stub(self, target, repl, owner=None, attr=None):
         """Replace `target` wherever btclib modules (and `owner`) hold a reference."""
         if owner is not None:
-            self._patches.append((owner.__dict__ if not isinstance(owner, dict) else owner, attr, getattr(owner, attr)))
-            setattr(owner, attr, repl)
+            had = attr in getattr(owner, "__dict__", {})
+            self._attr_patches.append((owner, attr, had, owner.__dict__.get(attr) if had else None))
+            object.__setattr__(owner, attr, repl)
+            return repl
         for mname, mod in list(sys.modules.items()):
             if mod is None or not (mname == "btclib" or mname.startswith("btclib.")):
                 continue
@@ -149,6 +155,15 @@ class ConcreteEx:
         return repl
 
     def unstub_all(self):
+        for owner, attr, had, old in reversed(self._attr_patches):
+            if had:
+                object.__setattr__(owner, attr, old)
+            else:
+                try:
+                    object.__delattr__(owner, attr)
+                except AttributeError:
+                    pass
+        self._attr_patches = []
         for d, k, v in reversed(self._patches):
             try:
                 d[k] = v
@@ -211,6 +226,7 @@ def _install_explorer_api():
         return Refused(tag, claims)
 
     def stub(self, target, repl, owner=None, attr=None):
+        """Symbolic mode: calls of `target` made by instrumented code are answered by `repl` (bound methods match by equality)."""
         instr.STUBS[target] = repl
         return repl
 
@@ -233,6 +249,13 @@ def _install_explorer_api():
             if st is not None:
                 instr.STUBS[fn] = st
 
+    def inputs_value(self, name, default=0):
+        v = self.inputs.get(name)
+        if v is None:
+            return default
+        return SymInt(v, -(1 << (v.size() - 1)), (1 << (v.size() - 1)) - 1)
+
+    E.inputs_value = inputs_value
     E.unstubbed = unstubbed
 
     E.prefer_int = prefer_int
